@@ -253,7 +253,7 @@ ADDED5 = {
     'C01': 'Round 8: a derived sequent is accepted only if each of its hypotheses is among the stated ones (K19, shared with P3).',
     'C06': 'Round 8: every Z3 variable made at the type of a binder is constrained to be non-negative under the natural-number test of its branch (Z12).',
     'C07': 'Round 8: every constant built with an explicit type is unified with the type the theory declares for it, parameters of the builder taken as fixed (W9).',
-    'C08': 'Round 8: classes of type variables are joined only through unify, which looks the representatives up first (U11, who-may-call).',
+    'C08': 'Round 8: classes of type variables are joined only through unify, which looks the representatives up first (U11, who-may-call). Round 9: the set the occurs check looks into is closed under the recorded reachability (U12).',
     'C09': 'Round 8: the instantiation is asked about v.name only for a v known to be schematic (N14).',
     'C10': 'Round 8: after a part of the term was normalised, no decision looks at the part as written (V12).',
     'C11': 'Round 8: the self-occurrence test of a definition compares with the name the head constant is built with (D12). Round 9: the type variables of a constructor are parameters of the datatype (third clause of D11).',
